@@ -328,6 +328,7 @@ def run_program(prog, chooser, seed, line_budget=0, cut_w2i=None, remote_backend
                     o["errtext"] = str(e)
                 except EOFError:
                     o["end"] = "EOFError"
+                o["callback_calls_at_waitclose"] = len(o["got"])   # nothing may be handed to the callback after waitclose returned
                 return
         except EOFError:
             o["end"] = "EOFError"
@@ -632,6 +633,8 @@ def check_conversation(ck, prefix, c, o, out, ex, lossy=False):
                 ck.fail(prefix + f"callback-items-differ:{mode}", ex)
             if got.count(END) != 1 or got[-1:] != [END]:
                 ck.fail(prefix + f"callback-endmarker-not-exactly-once-at-end:{mode}", ex)
+            elif o.get("callback_calls_at_waitclose") is not None and o["callback_calls_at_waitclose"] != len(got):
+                ck.fail(prefix + f"waitclose-returned-before-the-last-callback-calls:{mode}", ex)
             if o.get("receive_after_setcallback") != "OSError":
                 ck.fail(prefix + "receive-after-setcallback-not-refused", ex)
             if k == "produce_raise" and o.get("end") != "RemoteError":
